@@ -287,5 +287,5 @@ func TestC14(t *testing.T) {
 		return
 	}
 	r.CheckKnown(parts)
-	r.Rapid("histories", r.N(3000, 100000), c14Prop)
+	r.Rapid("histories", r.N(10000, 150000), c14Prop)
 }
